@@ -386,13 +386,13 @@ def build(x):
     pr.add_loop_spec(2, r'''
                     invariant
                         self.same_params(old(self)), self.wf(),
-                        @{k} <= self.ws@.len(), self.ws@.len() == mid.ws@.len(),
+                        §k§ <= self.ws@.len(), self.ws@.len() == mid.ws@.len(),
                         mid.ws@.len() == sp_n_slots(self.size as int, self.slide as int),
                         forall|j: int| 0 <= j < mid.ws@.len() ==> (#[trigger] mid.ws@[j]).count < self.size,
-                        forall|j: int| @{i} <= j < self.ws@.len() ==> self.ws@[j] == mid.ws@[j],
-                        forall|j: int| 0 <= j < @{i} ==> (#[trigger] self.ws@[j]).count == mid.ws@[j].count + 1
-                            && self.ws@[j].acc.contents() == mid.ws@[j].acc.contents().push(@{item})
-                            && self.ws@[j].ts == opt_max(mid.ws@[j].ts, @{ts}),
+                        forall|j: int| §i§ <= j < self.ws@.len() ==> self.ws@[j] == mid.ws@[j],
+                        forall|j: int| 0 <= j < §i§ ==> (#[trigger] self.ws@[j]).count == mid.ws@[j].count + 1
+                            && self.ws@[j].acc.contents() == mid.ws@[j].acc.contents().push(§item§)
+                            && self.ws@[j].ts == opt_max(mid.ws@[j].ts, §ts§),
     ''')
     pr.insert_before(re.compile(r'for \w+ in 0\.\.\w+'), r'''proof {
                     assert forall|j: int| 0 <= j < mid.ws@.len() implies (#[trigger] mid.ws@[j]).count < self.size by {
@@ -403,21 +403,21 @@ def build(x):
     pr.insert_before('if self.ws[0].count', r'''let ghost upd = *self;
                 proof {
                     let c = mid.cur();
-                    let c2 = c.push(@{item});
+                    let c2 = c.push(§item§);
                     let sl = self.slide as int;
                     assert(mid.slot_ok(0));
                     assert(mid.ws@[0].count == c.len());
-                    assert(@{k} == c.len() as int / sl + 1);
-                    assert(upd.ws@[0].acc.contents() == mid.ws@[0].acc.contents().push(@{item}));
+                    assert(§k§ == c.len() as int / sl + 1);
+                    assert(upd.ws@[0].acc.contents() == mid.ws@[0].acc.contents().push(§item§));
                     assert(upd.cur() =~= c2);
                     assert forall|j: int| 0 <= j < upd.ws@.len() implies #[trigger] upd.slot_ok(j) by {
                         assert(mid.slot_ok(j));
                         lemma_le_div(j, c.len() as int, sl);
                         assert(j * sl >= 0) by (nonlinear_arith) requires j >= 0, sl >= 1;
-                        if j < @{k} {
+                        if j < §k§ {
                             assert(j * sl <= c.len());
-                            assert(upd.ws@[j].acc.contents() == mid.ws@[j].acc.contents().push(@{item}));
-                            assert(c.skip(j * sl).push(@{item}) =~= c2.skip(j * sl));
+                            assert(upd.ws@[j].acc.contents() == mid.ws@[j].acc.contents().push(§item§));
+                            assert(c.skip(j * sl).push(§item§) =~= c2.skip(j * sl));
                         } else {
                             assert(upd.ws@[j] == mid.ws@[j]);
                             assert(j * sl > c.len());
